@@ -168,8 +168,18 @@ impl FromStr for Move {
         if !matches!(s.len(), 4 | 5) {
             return Err(RawParseError::BadLength);
         }
-        let src = Coord::from_str(&s[0..2]).map_err(RawParseError::BadSrc)?;
-        let dst = Coord::from_str(&s[2..4]).map_err(RawParseError::BadDst)?;
+        // Use `get()` instead of indexing, as the string may contain multi-byte characters, so
+        // the ranges below are not guaranteed to lie on character boundaries.
+        let src = s
+            .get(0..2)
+            .ok_or(CoordParseError::BadLength)
+            .and_then(Coord::from_str)
+            .map_err(RawParseError::BadSrc)?;
+        let dst = s
+            .get(2..4)
+            .ok_or(CoordParseError::BadLength)
+            .and_then(Coord::from_str)
+            .map_err(RawParseError::BadDst)?;
         let promote = if s.len() == 5 {
             Some(match s.as_bytes()[4] {
                 b'n' => PromotePiece::Knight,
